@@ -24,6 +24,14 @@ func VerifDir() string {
 	return "/verif"
 }
 
+// RepoDir is the checkout of the repository the harness was built against.
+func RepoDir() string {
+	if d := os.Getenv("VERIF_REPO"); d != "" {
+		return d
+	}
+	return "/repo"
+}
+
 // QuietCtx returns a context whose logger discards everything.
 func QuietCtx() context.Context {
 	return logger.ContextWithLogConfig(context.Background(), logger.NewEmptyConfig())
